@@ -35,6 +35,17 @@ def gen_config(rnd, S, opts=None):
     cost = {"stock_commission_multiplier": rnd.choice([1, 1, 0.5, 2]), "cn_stock_min_commission": rnd.choice([5, 5, 0, 1]),
             "tax_multiplier": rnd.choice([1, 1, 0, 2]), "futures_commission_multiplier": rnd.choice([1, 1, 2])}
     base_extra = {"margin_multiplier": rnd.choice([1, 1, 1.5]), "forced_liquidation": rnd.random() < 0.8}
+    if opts.get("p_init_pos") and rnd.random() < opts["p_init_pos"]:
+        # the run starts from configured holdings (base.init_positions): instruments that trade from the first day on
+        ip = []
+        for st in S["stocks"]:
+            if "stock" in accounts and st["listed"] <= S["cal"][0] and rnd.random() < 0.6:
+                ip.append("%s:%d" % (st["id"], rnd.choice([100, 300, 1000, 150])))
+        for ft in S["futures"]:
+            if "future" in accounts and rnd.random() < 0.5:
+                ip.append("%s:%d" % (ft["id"], rnd.choice([2, 3, -2])))
+        if ip:
+            base_extra["init_positions"] = ",".join(ip)
     return dict(accounts=accounts, sim=sim, accounts_mod=acc_mod, cost=cost, base_extra=base_extra)
 
 
